@@ -13,6 +13,8 @@ CONSTANTS
     MaxFaults = 0
     MaxCrashes = 0
     MaxReopens = 1
+    MaxFmtFail = 0
+    FmtFails = {}
     Ticks = {"same"}
     RetryTicks = {"same"}
     Phantoms = {0}
